@@ -3,6 +3,7 @@ package props
 import (
 	"bytes"
 	"context"
+	"errors"
 	"fmt"
 	"io"
 	"net/http"
@@ -14,6 +15,7 @@ import (
 
 	"verifharness/ev"
 	"verifharness/memhttp"
+	"verifharness/refwire"
 )
 
 // c13LateDelivery — data that arrives just as the caller gives up.
@@ -226,6 +228,80 @@ func c13LateDelivery(t *testing.T, c *ev.Collector) {
 					synctest.Wait()
 				})
 			}
+		}
+	}
+}
+
+// c13ClientEndOfStream mirrors c13HandlerEndOfStream on the client: responses
+// that end in the ways a peer can end them (flagged frames, trailers-only
+// headers, a status mirrored into the headers of a response that also has a
+// trailers frame) reach one client per protocol, call after call.  The caller
+// tags whatever error value the call ended with; no call may find another
+// call's tag on the value it is handed.
+func c13ClientEndOfStream(t *testing.T, c *ev.Collector) {
+	if s, _ := ev.Shard(); s != 0 {
+		return
+	}
+	type peer struct {
+		name    string
+		p       Proto
+		header  http.Header
+		body    []byte
+		trailer http.Header
+	}
+	msg := refwire.Envelope(0, codecMarshal(false, &BV{Value: []byte("m")}))
+	webTrailer := refwire.Envelope(0x80, []byte("grpc-status: 0\r\n"))
+	webFail := refwire.Envelope(0x80, []byte("grpc-status: 9\r\ngrpc-message: no\r\n"))
+	peers := []peer{
+		{"grpcweb/message-then-trailers", PGRPCWeb, http.Header{"Content-Type": {"application/grpc-web+proto"}}, append(cloneBytes(msg), webTrailer...), nil},
+		{"grpcweb/status-in-headers-and-trailers-frame", PGRPCWeb, http.Header{"Content-Type": {"application/grpc-web+proto"}, "Grpc-Status": {"0"}}, cloneBytes(webTrailer), nil},
+		{"grpcweb/status-in-headers-message-and-trailers-frame", PGRPCWeb, http.Header{"Content-Type": {"application/grpc-web+proto"}, "Grpc-Status": {"0"}}, append(cloneBytes(msg), webTrailer...), nil},
+		{"grpcweb/trailers-only-error", PGRPCWeb, http.Header{"Content-Type": {"application/grpc-web+proto"}, "Grpc-Status": {"9"}, "Grpc-Message": {"no"}}, nil, nil},
+		{"grpcweb/error-in-trailers-frame", PGRPCWeb, http.Header{"Content-Type": {"application/grpc-web+proto"}}, cloneBytes(webFail), nil},
+		{"grpc/message-then-trailers", PGRPC, http.Header{"Content-Type": {"application/grpc+proto"}}, cloneBytes(msg), http.Header{"Grpc-Status": {"0"}}},
+		{"grpc/trailers-only-ok", PGRPC, http.Header{"Content-Type": {"application/grpc+proto"}, "Grpc-Status": {"0"}}, nil, nil},
+		{"grpc/flagged-frame", PGRPC, http.Header{"Content-Type": {"application/grpc+proto"}}, cloneBytes(webTrailer), http.Header{"Grpc-Status": {"0"}}},
+		{"connect/message-then-end", PConnect, http.Header{"Content-Type": {"application/connect+proto"}}, append(cloneBytes(msg), refwire.Envelope(2, []byte("{}"))...), nil},
+		{"connect/end-with-error", PConnect, http.Header{"Content-Type": {"application/connect+proto"}}, refwire.Envelope(2, []byte(`{"error":{"code":"failed_precondition","message":"no"}}`)), nil},
+	}
+	for _, pr := range peers {
+		for _, kind := range []Kind{KBidi, KServer, KUnary, KClient} {
+			if pr.p == PConnect && (kind == KUnary) {
+				continue // unary Connect has no envelopes
+			}
+			key := fmt.Sprintf("client-end-of-stream/%s/%s", pr.name, kind)
+			c.Case(key, true)
+			Bubble(t, func() {
+				tr := &memhttp.Transport{Handler: refwire.Handler(200, pr.header, pr.body, pr.trailer), Proto: 2, SyncCloseReq: true}
+				cl := NewClient(tr, Cfg{Proto: pr.p, Comp: CompNone, Kind: kind})
+				tags := []string{"proto=" + pr.p.String(), "client-end-of-stream"}
+				for round := 0; round < 3; round++ {
+					id := fmt.Sprintf("call-%d", round)
+					var res CallResult
+					g := Guarded(func() { res = RunCall(context.Background(), cl, kind, [][]byte{{1}}, nil) }, tr)
+					if g.Hung || g.Panicked {
+						c.Violation(c13TestName, "terminates", "hang-or-panic", tags, key, "%s: hung=%v panic=%v", key, g.Hung, g.Panic)
+						c.Outcome("violation")
+						BailIfStuck(c, g)
+						return
+					}
+					for _, e := range []error{res.Err, res.EndErr} {
+						var ce *connect.Error
+						if e == nil || !errors.As(e, &ce) {
+							continue
+						}
+						if found := ce.Meta().Values("X-Tagged-By"); len(found) > 0 {
+							c.Violation(c13TestName, "no-cross-talk", "foreign-metadata", tags, key, "%s: the error value %s ended with (%v) already carries metadata that %v attached to the error of an earlier call: one *connect.Error value is shared by the calls", key, id, e, found)
+							c.Outcome("violation")
+							return
+						}
+						ce.Meta().Set("X-Tagged-By", id)
+					}
+				}
+				c.AddStates(3)
+				c.AddTransitions(3)
+				c.Outcome("ok")
+			})
 		}
 	}
 }
